@@ -346,7 +346,7 @@ theorem c14_refines_persistent_map (ops : List Op) : SpecRuns (fun _ => none) (t
 
 /-! ### Identity of live replicas -/
 
-theorem pinned_modObj {w : W} {k0 : Nat} {i0 : Id} {r0 r : Ref} {o o' : Obj} (hp : Pinned w k0 i0 r0)
+private theorem pinned_modObj {w : W} {k0 : Nat} {i0 : Id} {r0 r : Ref} {o o' : Obj} (hp : Pinned w k0 i0 r0)
     (h : w.heap[r]? = some o) (hid : o'.id = o.id) (hkeep : r = r0 → o'.bound = o.bound ∧ o'.live = o.live) :
     Pinned (modObj w r o') k0 i0 r0 := by
   obtain ⟨hc, ⟨x, hx, hxi, hxb, hxl⟩, hd⟩ := hp
@@ -358,11 +358,11 @@ theorem pinned_modObj {w : W} {k0 : Nat} {i0 : Id} {r0 r : Ref} {o o' : Obj} (hp
     exact ⟨o', by simp, by rw [hid, hxi], by rw [h1, hxb], by rw [h2, hxl]⟩
   · exact ⟨x, by simp [e, hx], hxi, hxb, hxl⟩
 
-theorem pinned_disk {w : W} {k0 : Nat} {i0 : Id} {r0 : Ref} (d : List (Id × Ver)) (hp : Pinned w k0 i0 r0)
+private theorem pinned_disk {w : W} {k0 : Nat} {i0 : Id} {r0 : Ref} (d : List (Id × Ver)) (hp : Pinned w k0 i0 r0)
     (hd : (AList.get i0 d).isSome) : Pinned { w with disk := d } k0 i0 r0 :=
   ⟨hp.1, hp.2.1, hd⟩
 
-theorem pinned_modCache {w : W} {k0 : Nat} {i0 : Id} {r0 : Ref} (k : Nat) (c : List (Id × Ref)) (hp : Pinned w k0 i0 r0)
+private theorem pinned_modCache {w : W} {k0 : Nat} {i0 : Id} {r0 : Ref} (k : Nat) (c : List (Id × Ref)) (hp : Pinned w k0 i0 r0)
     (hc : k = k0 → AList.get i0 c = some r0) : Pinned (modCache w k c) k0 i0 r0 := by
   refine ⟨?_, hp.2.1, hp.2.2⟩
   by_cases e : k0 = k
@@ -378,7 +378,7 @@ def touches (w : W) (i : Id) (r : Ref) : Op → Bool
     | none => false
   | _ => false
 
-theorem pinned_step (w : W) (op : Op) (k0 : Nat) (i0 : Id) (r0 : Ref) (hI : Inv w) (hp : Pinned w k0 i0 r0)
+private theorem pinned_step (w : W) (op : Op) (k0 : Nat) (i0 : Id) (r0 : Ref) (hI : Inv w) (hp : Pinned w k0 i0 r0)
     (hq : touches w i0 r0 op = false) : Pinned (step w op).1 k0 i0 r0 := by
   have hp' := hp
   obtain ⟨hc, ⟨x, hx, hxi, hxb, hxl⟩, hd⟩ := hp'
@@ -483,19 +483,20 @@ def Quiet (i : Id) (r : Ref) : W → List Op → Prop
   | _, [] => True
   | w, op :: rest => touches w i r op = false ∧ Quiet i r (step w op).1 rest
 
-theorem inv_run (w : W) (ops : List Op) (hI : Inv w) : Inv (run w ops) := by
+/-- the invariant holds after every history -/
+theorem c14_inv_reachable (w : W) (ops : List Op) (hI : Inv w) : Inv (run w ops) := by
   induction ops generalizing w with
   | nil => exact hI
   | cons op r ih => exact ih _ (c14_inv_step w op hI)
 
-theorem pinned_run (w : W) (ops : List Op) (k0 : Nat) (i0 : Id) (r0 : Ref) (hI : Inv w) (hp : Pinned w k0 i0 r0)
+private theorem pinned_run (w : W) (ops : List Op) (k0 : Nat) (i0 : Id) (r0 : Ref) (hI : Inv w) (hp : Pinned w k0 i0 r0)
     (hq : Quiet i0 r0 w ops) : Pinned (run w ops) k0 i0 r0 := by
   induction ops generalizing w with
   | nil => exact hp
   | cons op r ih => exact ih _ (c14_inv_step w op hI) (pinned_step w op k0 i0 r0 hI hp hq.1) hq.2
 
 /-- a successful retrieval pins the returned object -/
-theorem pinned_of_get (w : W) (k : Nat) (i : Id) (r : Ref) (hI : Inv w) (h : (get w k i).2 = .obj r) :
+private theorem pinned_of_get (w : W) (k : Nat) (i : Id) (r : Ref) (hI : Inv w) (h : (get w k i).2 = .obj r) :
     Pinned (get w k i).1 k i r := by
   have P := get_post w k i hI
   cases hv : AList.get i w.disk with
@@ -516,7 +517,7 @@ theorem c14_same_object (w : W) (k : Nat) (i : Id) (r : Ref) (ops : List Op) (hI
     ∃ o, (step w2 (.get k i)).1.heap[r]? = some o ∧ o.id = i ∧ abs w2 i = some o.ver := by
   intro w2
   have hI1 : Inv (step w (.get k i)).1 := c14_inv_step w _ hI
-  have hI2 : Inv w2 := inv_run _ ops hI1
+  have hI2 : Inv w2 := c14_inv_reachable _ ops hI1
   have hp2 : Pinned w2 k i r := pinned_run _ ops k i r hI1 (pinned_of_get w k i r hI hget) hq
   have P := get_post w2 k i hI2
   obtain ⟨hc, ⟨x, hx, hxi, hxb, hxl⟩, hd⟩ := hp2
@@ -652,9 +653,9 @@ example : trace init demo =
 example : (step (run init (demo.take 5)) (.get 0 ['a'])).2 = .obj 0 := by decide
 example : (step (run init (demo.take 10)) (.get 0 ['a'])).2 = .obj 2 := by decide
 example : (step (run init (demo.take 11)) (.get 0 ['a'])).2 = .obj 2 := by decide
-example : Quiet ['a'] 2 (step (run init (demo.take 10)) (.get 0 ['a'])).1 [.get 1 ['a'], .gc, .setver 1 9, .commit 1] := by
-  decide
-example : Inv (run init demo) := inv_run _ _ inv_init
+example : Quiet ['a'] 2 (step (run init (demo.take 10)) (.get 0 ['a'])).1 [.get 1 ['a'], .gc, .setver 1 9, .commit 1] :=
+  ⟨rfl, rfl, rfl, rfl, trivial⟩
+example : Inv (run init demo) := c14_inv_reachable _ _ inv_init
 
 end Basyx.FileStore
 
@@ -689,7 +690,7 @@ def goodB (v : Variant) (init : S) (R : List S) : Bool :=
   R.contains init && closedB v R &&
   R.all (fun s => bothDone (finish v s) && coherent init (finish v s) && twoGets init (finish v s))
 
-theorem run_mem_of_closed {v : Variant} {R : List S} (hc : closedB v R = true) :
+private theorem run_mem_of_closed {v : Variant} {R : List S} (hc : closedB v R = true) :
     ∀ (sched : List Bool) (s : S), s ∈ R → runS v s sched ∈ R := by
   intro sched
   induction sched with
@@ -704,7 +705,9 @@ theorem run_mem_of_closed {v : Variant} {R : List S} (hc : closedB v R = true) :
     · exact this.2
 
 set_option maxRecDepth 100000 in
-theorem fixed_all_good : inits.all (fun i => goodB .fixed i (reach .fixed i)) = true := by decide +kernel
+/-- Kernel-evaluated model checking: for each of the 40 start configurations the computed state set contains the
+    start state, is closed under a step of either thread, and every state in it completes coherently. -/
+theorem c14_reachable_sets_closed : inits.all (fun i => goodB .fixed i (reach .fixed i)) = true := by decide +kernel
 
 /-- **All schedules.**  Two threads of one store instance each retrieve or add the same identifier (every start
     configuration of `inits`); they advance between the lock/cache yield points in ANY order (`sched` is an arbitrary
@@ -715,7 +718,7 @@ theorem c14_two_threads (init : S) (hi : init ∈ inits) (sched : List Bool) :
     bothDone (finish .fixed (runS .fixed init sched)) = true ∧
     coherent init (finish .fixed (runS .fixed init sched)) = true ∧
     twoGets init (finish .fixed (runS .fixed init sched)) = true := by
-  have hg := (List.all_eq_true.1 fixed_all_good) init hi
+  have hg := (List.all_eq_true.1 c14_reachable_sets_closed) init hi
   simp only [goodB, Bool.and_eq_true, List.contains_iff_mem] at hg
   obtain ⟨⟨hmem, hclosed⟩, hall⟩ := hg
   have := (List.all_eq_true.1 hall) _ (run_mem_of_closed hclosed sched init hmem)
